@@ -147,6 +147,61 @@ MUTANTS = [
 """,
          new="""        return raw_unicode_escape(text.encode("utf-8")).encode("utf-8")
 """),
+    # ---- C02
+    dict(prop="C02", name="lt-instead-of-le", file="fickling/loader.py",
+         old="    if result.severity <= max_acceptable_severity:",
+         new="    if result.severity < max_acceptable_severity or result.severity == Severity.LIKELY_SAFE:"),
+    dict(prop="C02", name="analysis-error-falls-open", file="fickling/loader.py",
+         old="""    pickled_data = Pickled.load(file)
+    result = check_safety(pickled=pickled_data, json_output_path=json_output_path)""",
+         new="""    pickled_data = Pickled.load(file)
+    try:
+        result = check_safety(pickled=pickled_data, json_output_path=json_output_path)
+    except Exception:
+        return pickle.loads(pickled_data.dumps(), *args, **kwargs)"""),
+    dict(prop="C02", name="reloads-from-the-stream", file="fickling/loader.py",
+         old="""        return pickle.loads(pickled_data.dumps(), *args, **kwargs)
+    else:""",
+         new="""        if hasattr(file, "seek") and hasattr(file, "tell"):
+            file.seek(0)
+            return pickle.loads(file.read(), *args, **kwargs)
+        return pickle.loads(pickled_data.dumps(), *args, **kwargs)
+    else:"""),
+    dict(prop="C02", name="raises-after-loading", file="fickling/loader.py",
+         old="""    if result.severity <= max_acceptable_severity:""",
+         new="""    if result.severity > max_acceptable_severity and result.severity.name == "LIKELY_UNSAFE":
+        pickle.loads(pickled_data.dumps(), *args, **kwargs)
+        raise UnsafeFileError(file, result.to_dict())
+    if result.severity <= max_acceptable_severity:"""),
+    dict(prop="C02", name="context-manager-does-not-arm", file="fickling/context.py",
+         old="""        hook.run_hook()
+        return self""",
+         new="""        return self"""),
+    dict(prop="C02", name="wrong-severity-in-info", file="fickling/analysis.py",
+         old="""            "severity": self.severity.name,""",
+         new="""            "severity": (self.severity if len(self.results) < 3 else Severity.LIKELY_UNSAFE).name,"""),
+    # ---- C10
+    dict(prop="C10", name="cli-exit-inverted-when-print-results", file="fickling/cli.py",
+         old="            return [1, 0][was_safe]",
+         new="            return [1, 0][was_safe] if not args.print_results else [0, 1][was_safe]"),
+    dict(prop="C10", name="cli-checks-only-first-two", file="fickling/cli.py",
+         old="            for pickled in stacked_pickled:\n                safety_results",
+         new="            for pickled in stacked_pickled[:2]:\n                safety_results"),
+    dict(prop="C10", name="le-is-lt", file="fickling/analysis.py",
+         old="        return self < other or self == other",
+         new="        return self < other"),
+    dict(prop="C10", name="severity-is-min", file="fickling/analysis.py",
+         old="        return max(r.severity for r in self.results)",
+         new="        return min(r.severity for r in self.results)"),
+    dict(prop="C10", name="json-report-overwritten", file="fickling/analysis.py",
+         old="""        with open(json_output_path, "a") as json_file:""",
+         new="""        with open(json_output_path, "w") as json_file:"""),
+    dict(prop="C10", name="is-likely-safe-tolerates-suspicious", file="fickling/analysis.py",
+         old="        return check_safety(Pickled.load(f)).severity == Severity.LIKELY_SAFE",
+         new="        return check_safety(Pickled.load(f)).severity <= Severity.SUSPICIOUS"),
+    dict(prop="C10", name="gt-wrong-for-adjacent", file="fickling/analysis.py",
+         old="        return not isinstance(other, Severity) or other < self",
+         new="        return not isinstance(other, Severity) or other.value[0] + 1 < self.value[0]"),
     # ---- C14
     dict(prop="C14", name="delitem-keeps-ast", file="fickling/fickle.py",
          old="""        del self._opcodes[index]
